@@ -34,7 +34,7 @@ if [[ "$PHASE" == *A* ]]; then
       pkg=$(grep -m1 '^package ' "$d" | awk '{print $2}')
       case "$pkg" in
         olric|olric_test) dir=. ;;
-        *) dir=$(cd "$W" && grep -rl --include=*.go "^package $pkg\$" internal pkg config 2>/dev/null | head -1 | xargs dirname) ;;
+        *) pkg=${pkg%_test}; dir=$(cd "$W" && grep -rl --include=*.go "^package $pkg\$" internal pkg config 2>/dev/null | head -1 | xargs dirname) ;;
       esac
       [ -z "$dir" ] && { echo "nodir"; return; }
       cp "$d" "$W/$dir/"
